@@ -38,7 +38,9 @@ LEVEL_TEXT = ("Lean theorems for traces of every length: for the whole alignment
               "traces). The Feng-Doolittle distance formula is modelled exactly (integers): theorems state when it has a value, and the "
               "two known multiple.pyx findings are witness theorems. Partial: UPGMA/float distances, numpy indexing and the unvalidated "
               "custom guide tree (known finding) are exercised (correspondence + independent oracle), not proved.")
-LEVEL_NOTE = ("Trusted: Lean kernel + {propext, Classical.choice, Quot.sound}; harness/props/c11.py (generators, adapter, ast translator "
+LEVEL_NOTE = ("Regenerated from the source on every run and turned into Lean obligations: CigarOp table, reader/writer branches, default "
+              "arguments, guards with their comparison operators and exception classes, clip/trim formulas, dtype of the code matrix, "
+              "matrix lookup orientation, the steps of _progressive_align/_replace_gaps and the distance formula of multiple.pyx. Trusted: Lean kernel + {propext, Classical.choice, Quot.sound}; harness/props/c11.py (generators, adapter, ast translator "
               "of CigarOp/_str_to_op/reader branches); numpy slicing/where/argsort/unique modelled by documented semantics; align_optimal "
               "is C08's subject and enters as a hypothesis; UPGMA/float distances only through 'every leaf once' on the returned tree.")
 RULE = ("seeded valid traces of 2-4 sequences (leading/trailing gaps, insertions next to deletions, start offsets, clipped ends, "
@@ -1013,7 +1015,7 @@ def cases(rng, tier):
     yield from degenerate_cases(rng, 25 if q else 300)
     yield from alph256_cases(rng, 8 if q else 60)
     yield from fastareuse_cases(rng, 60 if q else 800)
-    yield from history_cases(rng, 120 if q else 2500)
+    yield from history_cases(rng, 90 if q else 2500)
     yield from spell_cases(rng, 60 if q else 1000)
     yield from tree_cases(rng, 60 if q else 1000)
     yield from dist_cases(rng, 80 if q else 2000)
@@ -1021,11 +1023,11 @@ def cases(rng, tier):
     yield from mixed_cases(rng, 150 if q else 2500)
     yield from gapchar_cases(rng, 120 if q else 2000)
     yield from big_cases(rng, 120 if q else 2000)
-    yield from trace_cases(rng, 1600 if q else 30000)
+    yield from trace_cases(rng, 1300 if q else 30000)
     yield from string_cases(rng, 100 if q else 1500)
     yield from cigar_cases(rng, 150 if q else 2500)
     yield from malformed_cases(rng, 120 if q else 2000)
-    yield from msa_cases(rng, 200 if q else 3000)
+    yield from msa_cases(rng, 170 if q else 3000)
 
 
 def corpus():
